@@ -10,9 +10,9 @@ import (
 	"encoding/json"
 	"fmt"
 	"os"
-	"runtime/debug"
 	"reflect"
 	"regexp"
+	"runtime/debug"
 	"sort"
 	"strings"
 	"time"
@@ -399,7 +399,8 @@ func blame(p *Program, obs, model reflect.Value) (sig, what string) {
 		mv, mok := peek(m, it.To)
 		if ook != mok || (ook && !equalMod(ov, mv)) {
 			inf := p.info(i)
-			return inf.FromChain + "->" + inf.ToChain, "mapping " + it.String() + ": target holds " + render(ov) + ", expected " + render(mv)
+			last := func(c string) string { return c[strings.LastIndex(c, ">")+1:] }
+			return last(inf.FromChain) + "-to-" + last(inf.ToChain), "mapping " + it.String() + ": target holds " + render(ov) + ", expected " + render(mv)
 		}
 	}
 	return "unmapped-part-not-zero/" + p.Dst, "all mapped targets hold the right values, something else is not zero"
@@ -725,7 +726,10 @@ func main() {
 		"the successor consumes its stream itself (collect) and merges the chunks structurally; no concat function is registered",
 		"static values have the static type of their target leaf",
 		"error texts, and whether a rejection happens in AddInput or in Compile, are not judged; rejected disjoint sets are not judged",
-		"a source path that meets an absent map key or a nil statically-typed pointer: the statement is silent - an error, or a successor input without that mapping, are both accepted; a panic out of the API is reported under its own signature",
+		"a source path that meets an absent map key or a nil statically-typed pointer, or a successor input that would be a nil interface: the statement is silent - an error, or a successor input without that mapping, are both accepted; a panic out of the API is reported under its own signature (.../statement-silent-input)",
+		"when two or more mappings of one set cannot be moved (wrong dynamic values, absent keys), only 'the run does not succeed' is demanded: which of them the run meets first depends on map iteration; each cause is judged alone by the simpler programs",
+		"a panic recovered by the framework inside a node and returned as an error counts as an error (counter runtime_check_error_is_recovered_panic); a panic that unwinds out of Invoke/Transform is the violation",
+		"run-time consequences of an accepted overlapping set (results varying between runs, modified predecessor outputs, panics) are counted under consequence[<class>] and attributed to the acceptance, which is their deterministic cause",
 	}
 	c.Res.Explanation = "Universe: root types T{S string,N int,In Inner,P *Inner,M map[string]any,X any,PS *string}, *T, map[string]any, map[string]string, any for predecessors and successor; " +
 		"paths by type walk (map keys k,j; below an interface: keys k,j on the target side, key k / field S on the source side) of length <=2 (quick) / <=3 (thorough), plus the whole value on either side; " +
